@@ -354,3 +354,273 @@ func c04RoundTripExact(c *Ctx) bool {
 	}
 	return true
 }
+
+// c04AcceptedExact decides the second sentence of the property — "accepts no
+// other input" — for the whole IPFromReversedAddr, for every name length 0..75:
+// the name is L symbolic bytes; ValidateDomainName is an uninterpreted
+// predicate V of the (dot-trimmed) name, one free Boolean per window, assumed
+// only to imply what it documents (no empty label); everything else — the
+// trailing-dot trim, the lowering, the suffix dispatch, the cut, the family
+// decoders — is evaluated.  The verdict must be
+//
+//	err == nil  <=>  V(name) and lower(name) is a dotted quad + ".in-addr.arpa"
+//	                 or 32 hex-digit labels + ".ip6.arpa"
+//
+// and the returned address the decoded one.
+func c04AcceptedExact(c *Ctx) bool {
+	const rule = "C04.accepted-exact"
+	f := c.fn("netutil", "IPFromReversedAddr")
+	if f == nil || len(f.Params) != 1 {
+		return false
+	}
+	v4suf, v6suf := ".in-addr.arpa", ".ip6.arpa"
+	if s, ok := strConstOf(c, "netutil", "arpaV4Suffix"); ok && len(s) > 1 {
+		v4suf = s
+	}
+	if s, ok := strConstOf(c, "netutil", "arpaV6Suffix"); ok && len(s) > 1 {
+		v6suf = s
+	}
+	var lengths []int
+	for L := 0; L <= 31; L++ {
+		lengths = append(lengths, L)
+	}
+	lengths = append(lengths, 40, 64, 71, 72, 73, 74, 75)
+	bads := make([]string, len(lengths))
+	errs := make([]error, len(lengths))
+	parallelDo(len(lengths), func(k int) {
+		L := lengths[k]
+		m := boolfn.New()
+		ev := &boolfn.Eval{M: m, Entered: map[string]bool{}, ErrorsAsBits: true, ForcePath: true, Steps: 3000000}
+		ev.InScope = core.InModule
+		model := &netipModel{ev: ev, fresh: 1 << 21}
+		in := ev.StringInput(0, L)
+		is := func(i int, v byte) int {
+			eq := 1
+			for b := 0; b < 8; b++ {
+				bit := in.Elems[i][b]
+				if (v>>uint(b))&1 == 0 {
+					bit = m.Not(bit)
+				}
+				eq = m.And(eq, bit)
+			}
+			return eq
+		}
+		// V per window [0,hi): hi == L (no trailing dot) or L-1
+		vVar := func(hi int) int { return m.Var(1<<20 + hi) }
+		wellFormed := func(hi int) int {
+			r := 1
+			for i := 0; i < hi; i++ {
+				if i == 0 || i == hi-1 {
+					r = m.And(r, m.Not(is(i, '.')))
+				}
+				if i > 0 {
+					r = m.And(r, m.Not(m.And(is(i-1, '.'), is(i, '.'))))
+				}
+			}
+			if hi == 0 {
+				return 0 // the empty name is not valid
+			}
+			return r
+		}
+		assume := 1
+		for _, hi := range []int{L, L - 1} {
+			if hi >= 0 {
+				assume = m.And(assume, m.Or(m.Not(vVar(hi)), wellFormed(hi)))
+			}
+		}
+		ev.Assume = assume
+		ev.Override = func(name string, call *ssa.CallCommon, args []boolfn.Val) (boolfn.Val, bool) {
+			switch {
+			case strings.HasSuffix(name, "/netutil.ValidateDomainName") && len(args) == 1:
+				switch a := args[0]; {
+				case a.Kind == boolfn.KSlice && len(a.Elems) == L && a.Lo == 0:
+					return boolfn.BoolVal(m.Not(vVar(a.Hi))), true
+				case a.Kind == boolfn.KStr && a.Str == "":
+					return boolfn.BoolVal(1), true
+				}
+				return boolfn.Val{}, false
+			case strings.HasSuffix(name, "/netutil.replaceKind"):
+				return boolfn.Opaque("void"), true
+			case strings.HasSuffix(name, "/errors.Unwrap") || name == "errors.Unwrap":
+				if len(args) == 1 && args[0].Kind == boolfn.KBits {
+					return args[0], true
+				}
+			}
+			return boolfn.Val{}, false
+		}
+		ev.OnCall = func(name string, call *ssa.CallCommon, args []boolfn.Val) (boolfn.Val, bool) {
+			if r, ok := model.OnCall(name, call, args); ok {
+				return r, true
+			}
+			if res := call.Signature().Results(); res.Len() == 1 && res.At(0).Type().String() == "error" {
+				return boolfn.BoolVal(1), true
+			}
+			return boolfn.Val{}, false
+		}
+		rs, err := ev.Call(f, []boolfn.Val{in})
+		if err != nil || len(rs) != 2 || rs[1].Kind != boolfn.KBits || len(rs[1].Bits) != 1 {
+			if err == nil {
+				err = fmt.Errorf("unexpected result shape")
+			}
+			errs[k] = err
+			return
+		}
+		got := m.And(m.Not(rs[1].Bits[0]), assume)
+		want := 0
+		wantAddr := zeroBytes(16)
+		want4 := 0
+		if gerr := boolfn.Guard(func() {
+			lower := func(i int) []int {
+				// the byte after ASCII lowering
+				up := m.And(m.Not(ev.Ult8(in.Elems[i], 'A')), m.Not(ev.Ult8c('Z', in.Elems[i])))
+				nb := append([]int(nil), in.Elems[i]...)
+				nb[5] = m.Or(nb[5], up)
+				return nb
+			}
+			eqc := func(bits []int, v byte) int {
+				eq := 1
+				for b := 0; b < 8; b++ {
+					bit := bits[b]
+					if (v>>uint(b))&1 == 0 {
+						bit = m.Not(bit)
+					}
+					eq = m.And(eq, bit)
+				}
+				return eq
+			}
+			for _, hi := range []int{L, L - 1} {
+				if hi < 0 {
+					continue
+				}
+				// which spelling: with the trailing dot the last byte is '.'
+				sel := vVar(hi)
+				if hi == L-1 {
+					sel = m.And(sel, is(L-1, '.'))
+				} else if L > 0 {
+					// TrimSuffix removes a final dot when there is one
+					sel = m.And(sel, m.Not(is(L-1, '.')))
+				}
+				low := make([][]int, hi)
+				for i := range low {
+					low[i] = lower(i)
+				}
+				hasSuffix := func(suf string) int {
+					if len(suf) > hi {
+						return 0
+					}
+					r := 1
+					for j := 0; j < len(suf); j++ {
+						r = m.And(r, eqc(low[hi-len(suf)+j], suf[j]))
+					}
+					return r
+				}
+				// IPv4
+				if n := hi - len(v4suf); n >= 7 && n <= 15 {
+					ok4, a4 := model.parseV4(low[:n])
+					cnd := m.And(sel, m.And(hasSuffix(v4suf), ok4))
+					if cnd != 0 {
+						want = m.Or(want, cnd)
+						want4 = m.Or(want4, cnd)
+						for j := 0; j < 4; j++ {
+							for b := 0; b < 8; b++ {
+								wantAddr[j][b] = m.Or(wantAddr[j][b], m.And(cnd, a4[3-j][b]))
+							}
+						}
+					}
+				}
+				// IPv6
+				if hi == 64+len(v6suf)-1 {
+					cnd := m.And(sel, hasSuffix(v6suf))
+					hexv := func(bits []int, bit int) int {
+						r := 0
+						for v := 0; v < 256; v++ {
+							if h := hexValue(v); h >= 0 && (h>>uint(bit))&1 == 1 {
+								r = m.Or(r, eqc(bits, byte(v)))
+							}
+						}
+						return r
+					}
+					isHex := func(bits []int) int {
+						r := 0
+						for v := 0; v < 256; v++ {
+							if hexValue(v) >= 0 {
+								r = m.Or(r, eqc(bits, byte(v)))
+							}
+						}
+						return r
+					}
+					for i := 0; i < 16 && cnd != 0; i++ {
+						cnd = m.And(cnd, m.And(isHex(low[4*i]), isHex(low[4*i+2])))
+						cnd = m.And(cnd, eqc(low[4*i+1], '.'))
+						if 4*i+3 < 63 {
+							cnd = m.And(cnd, eqc(low[4*i+3], '.'))
+						}
+					}
+					if cnd != 0 {
+						want = m.Or(want, cnd)
+						for i := 0; i < 16; i++ {
+							for b := 0; b < 8; b++ {
+								src, bit := low[4*i], b
+								if b >= 4 {
+									src, bit = low[4*i+2], b-4
+								}
+								wantAddr[15-i][b] = m.Or(wantAddr[15-i][b], m.And(cnd, hexv(src, bit)))
+							}
+						}
+					}
+				}
+			}
+			want = m.And(want, assume)
+		}); gerr != nil {
+			errs[k] = gerr
+			return
+		}
+		if got != want {
+			d := m.Xor(got, want)
+			kind := "refused though it is the canonical name of an address"
+			if x := m.And(got, m.Not(want)); x != 0 {
+				d, kind = x, "accepted though it is not a canonical reverse name (with a valid domain name assumed only where the witness says so)"
+			}
+			bads[k] = sprintf("the %d-byte name %s is %s", L, witnessName(m.Witness(d), L, L), kind)
+			return
+		}
+		if want == 0 {
+			return
+		}
+		if rs[0].Kind != boolfn.KArray || len(rs[0].Elems) != 17 {
+			bads[k] = "the result is not an address"
+			return
+		}
+		if d := m.And(want, m.Xor(rs[0].Elems[16][0], want4)); d != 0 {
+			bads[k] = sprintf("for the name %s the address comes back in the wrong family", witnessName(m.Witness(d), L, L))
+			return
+		}
+		for j := 0; j < 16; j++ {
+			for b := 0; b < 8; b++ {
+				if d := m.And(want, m.Xor(rs[0].Elems[j][b], wantAddr[j][b])); d != 0 {
+					bads[k] = sprintf("for the name %s byte %d of the address is not the decoded one", witnessName(m.Witness(d), L, L), j)
+					return
+				}
+			}
+		}
+	})
+	for k, e := range errs {
+		if e != nil {
+			if os.Getenv("GSA_DBG") != "" {
+				fmt.Fprintln(os.Stderr, "exact accepted language: L =", lengths[k], e)
+			}
+			c.L.Notef("IPFromReversedAddr is outside the exact evaluator's grammar at length %d (%v)", lengths[k], e)
+			return false
+		}
+	}
+	c.L.Floor(rule, 1)
+	what := "IPFromReversedAddr accepts exactly the canonical names (any letter case, optional trailing dot) and returns their address"
+	for _, b := range bads {
+		if b != "" {
+			c.check(false, rule, f, what, nil, b)
+			return true
+		}
+	}
+	c.check(true, rule, f, what, nil, sprintf("equal as Boolean functions of the name's bytes and of ValidateDomainName's verdict, for every name of %d..%d bytes and of 40, 64, 71..75 bytes", lengths[0], 31))
+	return true
+}
